@@ -263,6 +263,8 @@ def _images(ctx):
                      'one iteration of the index nest is not loop-free', 'undecidable-shape'):
         return
     io, ii = 'item%d' % outer['header'], 'item%d' % inner['header']
+    # the argument that says whether the untranslated image is wanted: a bool, or a two-variant enum (its discriminant)
+    zname = n.b.local_name(n.b.args()[-1]) or 'zero'
     rows, err = {}, None
     for z in (0, 1):
         for x0 in (0, 1):
@@ -273,7 +275,13 @@ def _images(ctx):
                     for c in o.pc:
                         if c[0] == 'assume':
                             continue
-                        v = _eval_bool(c[1], z, x0, y0, io, ii) if c[0] == 'cond' else None
+                        if c[0] in ('switch', 'switch-not') and c[1] == ('app', 'discr', (SYM(zname),)):
+                            holds = (z == c[2]) if c[0] == 'switch' else (z not in c[2])
+                            if not holds:
+                                sat = False
+                                break
+                            continue
+                        v = _eval_bool(c[1], z, x0, y0, io, ii, zname) if c[0] == 'cond' else None
                         if v is None:
                             err = 'unrecognised condition on the way to the yield: %r' % (c[1],)
                             break
@@ -297,7 +305,13 @@ def _images(ctx):
     if err:
         rep.fail('R3', 'filter-truth-table', where(b), err, 'undecidable-shape')
     else:
-        want = {(z, x0, y0): bool(z or not (x0 and y0)) for z in (0, 1) for x0 in (0, 1) for y0 in (0, 1)}
+        # one value of the argument keeps everything, the other drops exactly the (0,0) translate
+        def table(excl):
+            return {(z, x0, y0): bool(z != excl or not (x0 and y0)) for z in (0, 1) for x0 in (0, 1) for y0 in (0, 1)}
+        is_bool = n.b.local_ty(n.b.args()[-1]) == 'bool'
+        want = table(0)
+        if not is_bool and all(rows.get(k) == v for k, v in table(1).items()):
+            want = table(1)
         diff = [k for k in sorted(want) if rows.get(k) != want[k]]
         rep.check(not diff, 'R3', 'filter-truth-table', where(b),
                   'keep(zero, i=0, j=0) == zero OR NOT(i=0 AND j=0) on all 8 rows',
@@ -345,15 +359,15 @@ def show_val(v, depth=0):
     return str(v)[:80]
 
 
-def _eval_bool(v, z, x0, y0, io='item.0', ii='item.1'):
+def _eval_bool(v, z, x0, y0, io='item.0', ii='item.1', zname='zero'):
     k = v[0]
     if k == 'bool':
         return bool(v[1])
     if k == 'un' and v[1] == 'Not':
-        r = _eval_bool(v[2], z, x0, y0, io, ii)
+        r = _eval_bool(v[2], z, x0, y0, io, ii, zname)
         return None if r is None else (not r)
     if k == 'sym':
-        if v[1] == 'zero':
+        if v[1] == zname:
             return bool(z)
         return None
     if k == 'cmp' and v[1] in ('Eq', 'Ne'):
@@ -364,7 +378,7 @@ def _eval_bool(v, z, x0, y0, io='item.0', ii='item.1'):
             val = x0 if a[1] == io else y0
             return bool(val) if v[1] == 'Eq' else (not bool(val))
     if k == 'bin' and v[1] in ('BitAnd', 'BitOr'):
-        a, b = _eval_bool(v[2], z, x0, y0, io, ii), _eval_bool(v[3], z, x0, y0, io, ii)
+        a, b = _eval_bool(v[2], z, x0, y0, io, ii, zname), _eval_bool(v[3], z, x0, y0, io, ii, zname)
         if a is None or b is None:
             return None
         return (a and b) if v[1] == 'BitAnd' else (a or b)
@@ -386,3 +400,34 @@ def import_into(ctx, rule, prefix='C14:'):
         else:
             ctx.rep.fail(rule, prefix + o['instance'], o['construct'], o['why'], o['reason'])
     ctx.rep.analysed |= sub.rep.analysed
+
+
+_EXCL = {}
+
+
+def excludes_identity(ctx, value):
+    """Does passing `value` as periodic_images' last argument exclude exactly the untranslated image?  True / False / None.
+    Read off the truth table of the image filter (R3): the argument may be a bool or a two-variant enum."""
+    f = ctx.facts
+    key = id(f)
+    if key not in _EXCL:
+        from ..harness import Report
+        sub = type('Ctx', (), {})()
+        sub.__dict__.update(ctx.__dict__)
+        sub.rep = Report('C14', ctx.tier)
+        _images(sub)
+        tt = sub.rep.extra.get('filter_truth_table')
+        ok = all(o['ok'] for o in sub.rep.obligations if 'truth-table' in o['instance'])
+        _EXCL[key] = (tt, ok)
+    tt, ok = _EXCL[key]
+    if not tt or not ok:
+        return None
+    z = None
+    if isinstance(value, tuple) and value[0] == 'bool':
+        z = 1 if value[1] else 0
+    elif isinstance(value, tuple) and value[0] == 'struct' and value[2] is not None:
+        z = value[2][1]
+    if z is None:
+        return None
+    # rows keyed (z, i==0, j==0): excluded iff the (1,1) row is False for this z
+    return tt.get(str((z, 1, 1))) is False and all(tt.get(str((z, a, c))) is True for a in (0, 1) for c in (0, 1) if (a, c) != (1, 1))
